@@ -13,6 +13,7 @@ import (
 
 	"github.com/gofrs/uuid"
 
+	"github.com/Flowpack/prunner"
 	"github.com/Flowpack/prunner/definition"
 	"github.com/Flowpack/prunner/store"
 
@@ -182,6 +183,28 @@ func CheckRestartState(sys *core.Sys, specs []gen.PipeSpec, wantIDs []string, la
 	if !reflect.DeepEqual(got, want) {
 		find("C10:jobs-lost-or-duplicated-by-restart", "%s: the snapshot holds %d jobs, the restarted runner reports %d", label, len(want), len(got))
 	}
+	// what the HTTP API lists right after the restart agrees with the runner's own listing and with the job flags
+	if pipes, jobs, err := core.NewAPI(sys.R, core.NewMemOutputStore(), "0123456789abcdef-harness-secret", false).PipelinesJobs(); err == nil {
+		byName := map[string]prunner.PipelineInfo{}
+		for _, pi := range sys.ListPipelines(-1) {
+			byName[pi.Pipeline] = pi
+		}
+		runningJobs := map[string]bool{}
+		for i := range jobs {
+			if jobs[i].Start != nil && !jobs[i].Completed && !jobs[i].Canceled {
+				runningJobs[jobs[i].Pipeline] = true
+			}
+		}
+		for _, p := range pipes {
+			sit(fmt.Sprintf("http listing after restart running=%v", p.Running))
+			if fl, ok := byName[p.Pipeline]; !ok || fl.Running != p.Running || fl.Schedulable != p.Schedulable {
+				find("C15:http-flags-differ-from-runner", "%s: GET /pipelines/jobs lists %s running=%v schedulable=%v, ListPipelines running=%v schedulable=%v", label, p.Pipeline, p.Running, p.Schedulable, fl.Running, fl.Schedulable)
+			}
+			if p.Running != runningJobs[p.Pipeline] {
+				find("C15:running-flag-vs-jobs", "%s: GET /pipelines/jobs lists %s running=%v, but the jobs in the same response say %v (running = started, not completed, not canceled)", label, p.Pipeline, p.Running, runningJobs[p.Pipeline])
+			}
+		}
+	}
 	for _, pi := range sys.ListPipelines(-1) {
 		if pi.Running || !pi.Schedulable {
 			find("C10:ghost-holds-capacity-after-restart", "%s: pipeline %s is reported running=%v schedulable=%v right after the restart", label, pi.Pipeline, pi.Running, pi.Schedulable)
@@ -301,6 +324,9 @@ func drainUnlisted(sys *core.Sys) bool {
 func restartProps(sig string) []string {
 	if len(sig) > 4 && sig[:4] == "C03:" || sig == "C10:first-request-after-restart-not-started" {
 		return []string{"C10", "C03"}
+	}
+	if len(sig) > 4 && sig[:4] == "C15:" || sig == "C10:ghost-holds-capacity-after-restart" {
+		return []string{"C15", "C10"}
 	}
 	return []string{"C10"}
 }
@@ -471,6 +497,7 @@ func PreparedStoreCase(seed int64, workDir string) *HistResult {
 		ids = append(ids, id.String())
 		res.sit("C10", fmt.Sprintf("prepared job state=%d tasks=%d", state, len(pj.Tasks)))
 		res.sit("C03", fmt.Sprintf("restart on a store with a job in state %d: the next request must not be stranded", state))
+		res.sit("C15", fmt.Sprintf("restart on a store with a job in state %d: listings vs job flags", state))
 	}
 	dir, err := os.MkdirTemp(workDir, "prepared-")
 	if err != nil {
